@@ -285,7 +285,7 @@ func c19() []*Ob {
 					for _, b := range f.Blocks {
 						for _, in := range b.Instrs {
 							mu, ok := in.(*ssa.MapUpdate)
-							if !ok || !strings.Contains(mu.Map.Type().String(), "SamplesContainer") {
+							if !ok || !strings.Contains(TypeStr(mu.Map.Type()), "SamplesContainer") {
 								continue
 							}
 							n++
